@@ -453,3 +453,14 @@ Proof.
   pose proof (facts_graph_eq D reduce join K stranded HK Hj T' HF') as E. split; [exact E|]. rewrite E.
   apply chain_total; auto.
 Qed.
+
+(* ... and its contrapositive: an implementation output that is not one node of that length is not what the model
+   returns, for any iteration order *)
+Corollary chain_chk_refutes D reduce join K stranded (T T' : table D) :
+  chain_table_okb D join K stranded T = true -> (forall a b, join a b = join b a) -> Permutation T T' ->
+  forall impl_nodes, chk_single_node D K impl_nodes (length T) = false ->
+  compress_kmers D reduce join stranded T' <> Some impl_nodes.
+Proof.
+  intros H Hj Hp nodes Hf Hc. rewrite (chain_chk_single_node D reduce join K stranded T T' H Hj Hp nodes Hc) in Hf.
+  discriminate.
+Qed.
